@@ -244,6 +244,12 @@ class Injector:
         self.reset_active = False
         self.in_aexit = False
         self.aexit_points = []
+        self.in_connect = False
+        self.connect_points = []
+        self.dispose_points = []
+        self.phase = "body"
+        self.fired_phase = None
+        self.timeout_cm = None
 
     def install(self):
         from aiosqlite import core
@@ -254,6 +260,8 @@ class Injector:
         async def _execute(conn, fn, *a, **kw):
             if inj.armed:
                 inj.count += 1
+                if inj.phase == "dispose":
+                    inj.dispose_points.append(inj.count)
                 if inj.target is None:
                     # dry run: remember which awaits happen during a context-manager exit
                     f, k = sys._getframe(1), 0
@@ -283,16 +291,40 @@ class Injector:
                     inj.in_aexit = "__aexit__" in names
                     # cancel the USER's task (what task.cancel() / wait_for do), also when this
                     # await happens inside the shielded close() task SQLAlchemy spawned
-                    (inj.user_task or asyncio.current_task()).cancel()
+                    inj.fire()
             return await inj.orig(conn, fn, *a, **kw)
+
+        self.orig_connect = core.Connection._connect
+
+        async def _connect(conn):
+            # the await inside aiosqlite.connect(): creation of a physical connection
+            if inj.armed:
+                inj.count += 1
+                inj.connect_points.append(inj.count)
+                if inj.target is not None and inj.count == inj.target and not inj.fired:
+                    inj.fired = True
+                    inj.in_reset, inj.in_aexit, inj.in_connect = False, False, True
+                    inj.fire()
+            return await inj.orig_connect(conn)
 
         self.armed = False
         core.Connection._execute = _execute
+        core.Connection._connect = _connect
+
+    def fire(self):
+        """deliver the interruption to the USER's task: task.cancel(), or (mode "timeout")
+        expiry of the asyncio.timeout() block the body runs in -- what wait_for does"""
+        self.fired_phase = self.phase
+        if self.timeout_cm is not None:
+            self.timeout_cm.reschedule(asyncio.get_event_loop().time() - 1)
+        else:
+            (self.user_task or asyncio.current_task()).cancel()
 
     def remove(self):
         from aiosqlite import core
 
         core.Connection._execute = self.orig
+        core.Connection._connect = self.orig_connect
 
 
 async def _async_body(eng, prog, out):
@@ -455,7 +487,14 @@ def run_async_pool(case, rng_seed):
                 log("wv:%d" % v)
 
     cls = lib_pool.traced_pool_class(pimpl.AsyncAdaptedQueuePool, log_ov, lambda: active[0])
-    pool = cls(dbapi.connect, pool_size=cfg["size"], max_overflow=cfg["max_overflow"], use_lifo=cfg["lifo"], timeout=cfg["timeout"])
+    from sqlalchemy.util import await_
+
+    def creator():
+        # a physical connection is created with an await inside (as every asyncio driver does)
+        await_(asyncio.sleep(0))
+        return dbapi.connect()
+
+    pool = cls(creator, pool_size=cfg["size"], max_overflow=cfg["max_overflow"], use_lifo=cfg["lifo"], timeout=cfg["timeout"])
 
     def rid(rec):
         k = id(rec)
@@ -511,6 +550,9 @@ def run_async_pool(case, rng_seed):
         flush()
         try:
             rec = pimpl.QueuePool._create_connection(self)
+        except asyncio.CancelledError:
+            log("ccancel")  # cancelled at the await inside the creation
+            raise
         except BaseException:
             log("cf")
             raise
@@ -778,6 +820,23 @@ def run(ctx, deep=False):
                 ctx.sample({"program": prog})
     finally:
         shutil.rmtree(tmp, ignore_errors=True)
+    # (D) streamed results reconfigured mid-stream: sync vs async
+    tmp = tempfile.mkdtemp(prefix="c29_", dir="/tmp")
+    try:
+        scs = [gen_stream_scenario(random.Random("%s:st:%d:%d" % (PID, ctx.seed, i))) for i in range(500 if thorough else 45)]
+        scs = STREAM_DIRECTED + scs
+        for sc, (so, ao) in zip(scs, stream_differential(scs, tmp)):
+            ctx.case(("stream", sc), nontrivial=True)
+            ctx.count("stream-scenarios")
+            for st in sc["steps"]:
+                ctx.count("stream-step=" + st[0])
+            if so != ao:
+                i = next((k for k, (a, b) in enumerate(zip(so, ao)) if a != b), 0)
+                ctx.violation(classify_stream(sc), {"stream": sc}, "step result #%d: sync %s, async %s" % (i, str(so[i : i + 1])[:200], str(ao[i : i + 1])[:200]))
+        # (E) interruption while a physical connection is being created
+        connect_scenarios(ctx, tmp, random.Random("%s:conn:%d" % (PID, ctx.seed)), thorough)
+    finally:
+        shutil.rmtree(tmp, ignore_errors=True)
     cases, impl_out, reqs = [], [], []
     for i in range(600 if thorough else 100):
         rng = random.Random("%s:p:%d:%d" % (PID, ctx.seed, i))
@@ -786,7 +845,7 @@ def run(ctx, deep=False):
         ctx.case(("pool", line), nontrivial=True)
         ctx.count("asyncpool-cases")
         for l in line.split()[-1].split(","):
-            if ":" in l and l.split(":")[1] in ("cancel", "to", "qf", "qe"):
+            if ":" in l and l.split(":")[1] in ("cancel", "ccancel", "to", "qf", "qe"):
                 ctx.count("asyncpool-label=" + l.split(":")[1])
         for key, detail in failures[:2]:
             ctx.violation("c29-asyncpool-" + key, case, detail)
@@ -833,6 +892,430 @@ def replay(ctx, obj):
         print("  async:", out_a, final_a, "cancelled=%s" % cancelled)
         print("  oracle:", failures or ("atomic prefix violated" if final_a not in states else "no violation"))
         return bad
+    if "stream" in c:
+        tmp = tempfile.mkdtemp(prefix="c29r_", dir="/tmp")
+        try:
+            (so, ao), = stream_differential([c["stream"]], tmp)
+        finally:
+            shutil.rmtree(tmp, ignore_errors=True)
+        print("replay C29 streamed result %s" % c["stream"])
+        print("  sync :", so)
+        print("  async:", ao)
+        return so != ao
+    if "connect_kind" in c:
+        tmp = tempfile.mkdtemp(prefix="c29r_", dir="/tmp")
+        try:
+            failures, _, _, _ = run_connect_scenario(c["connect_kind"], os.path.join(tmp, "c.db"), c["cancel_at"], c["mode"])
+        finally:
+            shutil.rmtree(tmp, ignore_errors=True)
+        print("replay C29 connection creation %s -> %s" % (c, failures or "no violation"))
+        return bool(failures)
     line, impl, failures = run_async_pool(c, 0)
     print("replay C29 async pool case %s -> %s" % (c, failures or "no violation"))
     return bool(failures)
+
+
+# --------------------------------------------------------------------------- (D) streamed results reconfigured mid-stream
+def gen_stream_scenario(rng):
+    """a streamed result: fetch a little, reconfigure (unique / yield_per / columns / scalars /
+    mappings), then consume the rest with one consumer method -- data with duplicates"""
+    pool = [(rng.randrange(3), rng.randrange(3)) for _ in range(4)]
+    rows = [list(rng.choice(pool)) for _ in range(rng.randint(8, 14))]
+    steps = []
+    first = rng.choice([["one"], ["many", rng.choice([1, 2, 3])], ["iter", rng.choice([1, 2])], ["part", rng.choice([1, 2]), 1], None])
+    if first:
+        steps.append(first)
+    view = None
+    view_fetched = False
+    for _ in range(rng.choice([1, 1, 2])):
+        c = rng.random()
+        if c < 0.4 and not view_fetched:
+            # (unique() on a scalars()/mappings() view after that view was fetched from is not
+            # generative in the sync API either: stale memoized getters, outside the comparison)
+            steps.append(["unique"])
+        elif c < 0.6:
+            steps.append(["yp", rng.choice([1, 2, 3])])
+        elif c < 0.72 and view is None:
+            steps.append(["cols", rng.choice([[0], [1], [1, 0]])])
+        elif c < 0.86 and view is None:
+            steps.append(["scalars", rng.randrange(2)])
+            view = "s"
+        elif view is None:
+            steps.append(["mappings"])
+            view = "m"
+        elif not view_fetched:
+            steps.append(["unique"])
+        else:
+            steps.append(["yp", rng.choice([1, 2])])
+        if rng.random() < 0.4:
+            steps.append(rng.choice([["one"], ["many", rng.choice([1, 2])], ["iter", 1]]))
+            if view is not None:
+                view_fetched = True
+    steps.append(rng.choice([["drain-one"], ["drain-many", rng.choice([1, 2, 3])], ["drain-part", rng.choice([1, 2, 3])], ["drain-iter"], ["all"]]))
+    return {"rows": rows, "steps": steps}
+
+
+def _norm(x):
+    if x is None:
+        return None
+    if hasattr(x, "_mapping") and not isinstance(x, tuple):
+        return tuple(x)
+    if isinstance(x, tuple):
+        return tuple(x)
+    if hasattr(x, "items") and not isinstance(x, (int, str)):
+        return tuple(sorted(x.items()))
+    try:
+        return tuple(x)
+    except TypeError:
+        return x
+
+
+def run_stream_sync(conn, stmt, steps):
+    out = []
+    res = conn.execution_options(stream_results=True).execute(stmt)
+    it = None
+    try:
+        for st in steps:
+            k = st[0]
+            try:
+                if k == "one":
+                    out.append(("one", _norm(res.fetchone())))
+                elif k == "many":
+                    out.append(("many", [_norm(r) for r in res.fetchmany(st[1])]))
+                elif k == "iter":
+                    it = iter(res)
+                    got = []
+                    for _ in range(st[1]):
+                        try:
+                            got.append(_norm(next(it)))
+                        except StopIteration:
+                            break
+                    out.append(("iter", got))
+                elif k == "part":
+                    pit = iter(res.partitions(st[1]))
+                    got = []
+                    for _ in range(st[2]):
+                        try:
+                            got.append([_norm(r) for r in next(pit)])
+                        except StopIteration:
+                            break
+                    out.append(("part", got))
+                elif k == "unique":
+                    res = res.unique()
+                elif k == "yp":
+                    res = res.yield_per(st[1])
+                elif k == "cols":
+                    res = res.columns(*st[1])
+                elif k == "scalars":
+                    res = res.scalars(st[1])
+                elif k == "mappings":
+                    res = res.mappings()
+                elif k == "drain-one":
+                    got = []
+                    while True:
+                        r = res.fetchone()
+                        if r is None:
+                            break
+                        got.append(_norm(r))
+                    out.append(("drain", got))
+                elif k == "drain-many":
+                    got = []
+                    while True:
+                        rs = res.fetchmany(st[1])
+                        if not rs:
+                            break
+                        got.append([_norm(r) for r in rs])
+                    out.append(("drain", got))
+                elif k == "drain-part":
+                    out.append(("drain", [[_norm(r) for r in p] for p in res.partitions(st[1])]))
+                elif k == "drain-iter":
+                    out.append(("drain", [_norm(r) for r in res]))
+                elif k == "all":
+                    out.append(("drain", [_norm(r) for r in res.all()]))
+            except Exception as e:  # noqa
+                out.append(("err", k, type(e).__name__))
+    finally:
+        try:
+            res.close()
+        except Exception:
+            pass
+    return out
+
+
+async def run_stream_async(conn, stmt, steps):
+    out = []
+    res = await conn.stream(stmt)
+    try:
+        for st in steps:
+            k = st[0]
+            try:
+                if k == "one":
+                    out.append(("one", _norm(await res.fetchone())))
+                elif k == "many":
+                    out.append(("many", [_norm(r) for r in await res.fetchmany(st[1])]))
+                elif k == "iter":
+                    it = res.__aiter__()
+                    got = []
+                    for _ in range(st[1]):
+                        try:
+                            got.append(_norm(await it.__anext__()))
+                        except StopAsyncIteration:
+                            break
+                    out.append(("iter", got))
+                elif k == "part":
+                    pit = res.partitions(st[1]).__aiter__()
+                    got = []
+                    for _ in range(st[2]):
+                        try:
+                            got.append([_norm(r) for r in await pit.__anext__()])
+                        except StopAsyncIteration:
+                            break
+                    out.append(("part", got))
+                elif k == "unique":
+                    res = res.unique()
+                elif k == "yp":
+                    res = res.yield_per(st[1])
+                elif k == "cols":
+                    res = res.columns(*st[1])
+                elif k == "scalars":
+                    res = res.scalars(st[1])
+                elif k == "mappings":
+                    res = res.mappings()
+                elif k == "drain-one":
+                    got = []
+                    while True:
+                        r = await res.fetchone()
+                        if r is None:
+                            break
+                        got.append(_norm(r))
+                    out.append(("drain", got))
+                elif k == "drain-many":
+                    got = []
+                    while True:
+                        rs = await res.fetchmany(st[1])
+                        if not rs:
+                            break
+                        got.append([_norm(r) for r in rs])
+                    out.append(("drain", got))
+                elif k == "drain-part":
+                    got = []
+                    async for p in res.partitions(st[1]):
+                        got.append([_norm(r) for r in p])
+                    out.append(("drain", got))
+                elif k == "drain-iter":
+                    got = []
+                    async for r in res:
+                        got.append(_norm(r))
+                    out.append(("drain", got))
+                elif k == "all":
+                    out.append(("drain", [_norm(r) for r in await res.all()]))
+            except Exception as e:  # noqa
+                out.append(("err", k, type(e).__name__))
+    finally:
+        try:
+            await res.close()
+        except Exception:
+            pass
+    return out
+
+
+def classify_stream(sc):
+    """known deviation: unique() on the row-level AsyncResult is lost by a scalars() /
+    mappings() view derived afterwards (the view is built from the inner sync result)"""
+    seen_unique = seen_cols = False
+    for st in sc["steps"]:
+        if st[0] == "unique":
+            seen_unique = True
+        elif st[0] == "cols":
+            seen_cols = True
+        elif st[0] in ("scalars", "mappings"):
+            if seen_unique:
+                return "c29-async-unique-lost-by-derived-view"
+            if seen_cols:
+                return "c29-async-columns-lost-by-derived-view"
+            break
+    return "c29-stream-sync-async-differ"
+
+
+STREAM_DIRECTED = [
+    {"rows": [[1, 1], [1, 1], [2, 0], [1, 1], [2, 0], [0, 2], [1, 1], [0, 2]], "steps": [["one"], ["unique"], ["drain-one"]]},
+    {"rows": [[1, 1], [1, 1], [2, 0], [1, 1], [2, 0], [0, 2], [1, 1], [0, 2]], "steps": [["many", 2], ["unique"], ["drain-many", 2]]},
+    {"rows": [[1, 1], [1, 1], [2, 0], [1, 1], [2, 0], [0, 2], [1, 1], [0, 2]], "steps": [["iter", 1], ["unique"], ["drain-iter"]]},
+    {"rows": [[1, 1], [1, 1], [2, 0], [1, 1], [2, 0], [0, 2], [1, 1], [0, 2]], "steps": [["one"], ["unique"], ["drain-part", 2]]},
+    {"rows": [[1, 1], [1, 1], [2, 0], [1, 1], [2, 0], [0, 2], [1, 1], [0, 2]], "steps": [["one"], ["yp", 2], ["drain-part", 3]]},
+    {"rows": [[1, 1], [1, 1], [2, 0], [1, 1], [2, 0], [0, 2], [1, 1], [0, 2]], "steps": [["one"], ["cols", [1]], ["drain-one"]]},
+    {"rows": [[1, 1], [1, 1], [2, 0], [1, 1], [2, 0], [0, 2], [1, 1], [0, 2]], "steps": [["one"], ["scalars", 1], ["unique"], ["drain-many", 2]]},
+    {"rows": [[1, 1], [1, 1], [2, 0], [1, 1], [2, 0], [0, 2], [1, 1], [0, 2]], "steps": [["many", 1], ["mappings"], ["unique"], ["drain-iter"]]},
+    {"rows": [[1, 1], [1, 1], [2, 0], [1, 1], [2, 0], [0, 2], [1, 1], [0, 2]], "steps": [["unique"], ["scalars", 0], ["drain-iter"]]},
+    {"rows": [[1, 1], [1, 1], [2, 0], [1, 1], [2, 0], [0, 2], [1, 1], [0, 2]], "steps": [["cols", [0]], ["mappings"], ["drain-one"]]},
+]
+
+
+def stream_differential(scenarios, tmp):
+    """returns list of (sync_out, async_out) per scenario"""
+    import sqlalchemy as sa
+    from sqlalchemy.ext.asyncio import create_async_engine
+
+    md = sa.MetaData()
+    u = sa.Table("u", md, sa.Column("id", sa.Integer, primary_key=True), sa.Column("a", sa.Integer), sa.Column("b", sa.Integer))
+    stmt = sa.select(u.c.a, u.c.b).order_by(u.c.id)
+    sync_out, async_out = [], []
+    eng = sa.create_engine("sqlite:///" + os.path.join(tmp, "stream_s.db"))
+    try:
+        md.create_all(eng)
+        with eng.connect() as conn:
+            for sc in scenarios:
+                conn.execute(sa.delete(u))
+                conn.execute(sa.insert(u), [{"id": i + 1, "a": r[0], "b": r[1]} for i, r in enumerate(sc["rows"])])
+                conn.commit()
+                sync_out.append(run_stream_sync(conn, stmt, sc["steps"]))
+                conn.rollback()
+    finally:
+        eng.dispose()
+
+    async def main():
+        aeng = create_async_engine("sqlite+aiosqlite:///" + os.path.join(tmp, "stream_a.db"))
+        try:
+            async with aeng.begin() as conn:
+                await conn.run_sync(md.create_all)
+            async with aeng.connect() as conn:
+                for sc in scenarios:
+                    await conn.execute(sa.delete(u))
+                    await conn.execute(sa.insert(u), [{"id": i + 1, "a": r[0], "b": r[1]} for i, r in enumerate(sc["rows"])])
+                    await conn.commit()
+                    async_out.append(await run_stream_async(conn, stmt, sc["steps"]))
+                    await conn.rollback()
+        finally:
+            await aeng.dispose()
+
+    with warnings.catch_warnings():
+        warnings.simplefilter("ignore")
+        asyncio.run(main())
+    return list(zip(sync_out, async_out))
+
+
+# --------------------------------------------------------------------------- (E) interruption while a connection is created
+CONNECT_KINDS = ("first", "overflow", "dispose")
+
+
+def run_connect_scenario(kind, path, cancel_at, mode):
+    """pool_size 1 / max_overflow 1 engine; the body makes the pool create a physical
+    connection (first checkout / overflow checkout / checkout after dispose()); the user
+    task is cancelled (mode "cancel") or its asyncio.timeout() expires (mode "timeout") at the
+    cancel_at-th driver await (aiosqlite _connect and _execute).
+    returns (failures, n_awaits, interrupted?)"""
+    import sqlalchemy as sa
+    from sqlalchemy.ext.asyncio import create_async_engine
+
+    inj = Injector(cancel_at)
+    failures = []
+    res = {}
+    if not os.path.exists(path):
+        e0 = sa.create_engine("sqlite:///" + path)
+        with e0.begin() as c:
+            c.execute(sa.text("create table if not exists k (x integer)"))
+        e0.dispose()
+
+    async def body(eng):
+        if kind == "first":
+            async with eng.connect() as c:
+                await c.execute(sa.text("select 1"))
+        elif kind == "overflow":
+            async with eng.connect() as c1:
+                await c1.execute(sa.text("select 1"))
+                async with eng.connect() as c2:  # pool_size exhausted: an overflow connection is created
+                    await c2.execute(sa.text("select 2"))
+        else:
+            async with eng.connect() as c:
+                await c.execute(sa.text("select 1"))
+            inj.phase = "dispose"
+            await eng.dispose()
+            inj.phase = "body"
+            async with eng.connect() as c:  # the new pool creates its first connection
+                await c.execute(sa.text("select 3"))
+
+    async def guarded(eng):
+        if mode == "timeout":
+            async with asyncio.timeout(None) as cm:
+                inj.timeout_cm = cm
+                await body(eng)
+        else:
+            await body(eng)
+
+    async def main():
+        eng = create_async_engine("sqlite+aiosqlite:///" + path, pool_size=1, max_overflow=1, pool_timeout=0.5)
+        try:
+            inj.armed = True
+            task = asyncio.ensure_future(guarded(eng))
+            inj.user_task = task
+            try:
+                await task
+                res["interrupted"] = False
+            except (asyncio.CancelledError, TimeoutError):
+                res["interrupted"] = True
+            inj.armed = False
+            me = asyncio.current_task()
+            others = [x for x in asyncio.all_tasks() if x is not me]
+            if others:
+                await asyncio.gather(*others, return_exceptions=True)
+            del others, task
+            inj.user_task = inj.timeout_cm = None
+            await asyncio.sleep(0)
+            where = "%s checkout, %s at await #%s%s" % (kind, mode, cancel_at, " (inside aiosqlite connect)" if inj.in_connect else "")
+            if inj.fired and not res["interrupted"]:
+                failures.append(("c29-cancellation-swallowed", "the interruption was swallowed (%s)" % where))
+            pool = eng.pool
+            in_dispose = inj.fired_phase == "dispose"
+            sfx = "-after-interrupted-dispose" if in_dispose else ""
+            if in_dispose:
+                where += ", inside AsyncEngine.dispose()"
+            if pool.checkedout() != 0:
+                failures.append(("c29-overflow-counter-not-restored" + sfx, "checkedout()=%d, overflow()=%d with nothing checked out (%s)" % (pool.checkedout(), pool.overflow(), where)))
+            # the engine must still be able to open pool_size + max_overflow connections at once
+            try:
+                async with eng.connect() as a:
+                    async with eng.connect() as b:
+                        await a.execute(sa.text("select 1"))
+                        await b.execute(sa.text("select 1"))
+            except Exception as e:  # noqa
+                failures.append(("c29-capacity-lost" + sfx, "cannot open pool_size+max_overflow=2 connections afterwards: %s: %s (%s)" % (type(e).__name__, str(e)[:80], where)))
+            if eng.pool.checkedout() != 0:
+                failures.append(("c29-overflow-counter-not-restored" + sfx, "checkedout()=%d after the capacity probe (%s)" % (eng.pool.checkedout(), where)))
+        finally:
+            await eng.dispose()
+
+    lg = logging.getLogger("sqlalchemy")
+    if not getattr(lg, "_verif_silenced", False):
+        lg.addHandler(logging.NullHandler())
+        lg.propagate = False
+        lg._verif_silenced = True
+    inj.install()
+    try:
+        with warnings.catch_warnings():
+            warnings.simplefilter("ignore")
+            asyncio.run(main())
+    finally:
+        inj.remove()
+    return failures, inj.count, res.get("interrupted"), sorted(set(inj.connect_points) | set(inj.dispose_points))
+
+
+def connect_scenarios(ctx, tmp, rng, thorough):
+    path = os.path.join(tmp, "conn.db")
+    for kind in CONNECT_KINDS:
+        _, n, _, cpts = run_connect_scenario(kind, path, None, "cancel")
+        for mode in ("cancel", "timeout"):
+            if thorough:
+                points = list(range(1, n + 1))
+            else:
+                # quick: every await of a physical-connection creation or inside dispose() (and
+                # the one after it), plus 2 random others
+                near = sorted({p for c in cpts for p in (c, c + 1) if p <= n})
+                rest = [p for p in range(1, n + 1) if p not in near]
+                points = sorted(set(near) | set(rng.sample(rest, min(2, len(rest)))))
+            for k in points:
+                failures, _, interrupted, _ = run_connect_scenario(kind, path, k, mode)
+                case = {"connect_kind": kind, "mode": mode, "cancel_at": k}
+                ctx.case(("connect", kind, mode, k), nontrivial=True)
+                ctx.count("connect-scenario=%s/%s" % (kind, mode))
+                for key, detail in failures[:3]:
+                    ctx.violation(key, case, detail)
